@@ -37,8 +37,8 @@ FormText(f) == f.s1 \o (IF f.br THEN "(" \o f.s2 \o f.body \o ")" ELSE f.body)
 ----------------------------------------------------------------------------
 (* valuations: two fixed integer environments; every value is a multiple of 1/2 in both, and Den(.) is TWICE *)
 (* the value, so that x/y and its reciprocal y/x are both representable and distinguishable                  *)
-Vals == << [x |-> 6,  y |-> 3, a |-> 5,  b |-> 2, c |-> 4],
-           [x |-> -4, y |-> 2, a |-> -3, b |-> 7, c |-> -5] >>
+Vals == << [x |-> 6,  y |-> 3, a |-> 5,  b |-> 2, c |-> 4, w |-> 40],
+           [x |-> -4, y |-> 2, a |-> -3, b |-> 7, c |-> -5, w |-> -20] >>
 
 DenText1(s, v) ==
     CASE s = ""        -> 0
@@ -67,6 +67,9 @@ DenText1(s, v) ==
       [] s = "-(a//b)" -> 0 - (v.a \div v.b)
       [] s = "-(a%b)"  -> 0 - (v.a % v.b)
       [] s = "a//b"    -> v.a \div v.b
+      \* small decimal coefficients: texts that begin like the zero placeholder '0.0' without being it
+      [] s = "0.05*w"  -> v.w \div 20
+      [] s = "0.025*w" -> v.w \div 40
       [] s = "x*2"     -> v.x * 2
       [] s = "2*x"     -> 2 * v.x
       [] s = "6/y"     -> 6 \div v.y
@@ -81,7 +84,9 @@ DenText1(s, v) ==
       [] s = "+ 2"     -> 2
       [] s = "a*(b+c)" -> v.a * (v.b + v.c)
 
-DenText(s, v) == IF s = "y/x" THEN (2 * v.y) \div v.x ELSE 2 * DenText1(s, v)
+DenText(s, v) == IF s = "y/x" THEN (2 * v.y) \div v.x
+                 ELSE IF s = "0.025*w" THEN v.w \div 20
+                 ELSE 2 * DenText1(s, v)
 
 ----------------------------------------------------------------------------
 (* A term as the code stores it *)
